@@ -7,6 +7,7 @@
 (*   clone g to | fix g n r | reset g | zeros g n (guarded hook)           *)
 (***************************************************************************)
 EXTENDS GenReal, TraceBase
+T == INSTANCE Text WITH MAXRUN <- 3, NUMBS <- 31, CAP1 <- 64, CAP2S <- 32, CAP2L <- 64
 S == INSTANCE Stream WITH BUF <- 32768
 VARIABLES l, j, gens
 vars == <<l, j, gens>>
@@ -20,6 +21,7 @@ J(res) == IF res.err = "none" THEN [e |-> "none", k |-> res.log, a |-> res.b1, b
    the same values (extra recorded fields such as is_valid are used by other specs) *)
 Same(x, o) == DOMAIN x \subseteq DOMAIN o /\ x = [f \in DOMAIN x |-> o[f]]
               /\ (x.e # "none" => o.e = x.e)
+              /\ (x.e = "none" => o.v = TRUE)          \* the returned object passes is_valid() (C11)
 Warn(g) == G!SzLT(IF g.fixed # G!NoSize THEN g.fixed ELSE g.ref.size, <<0, 4097>>)
 
 Init == l = 1 /\ j = 0 /\ gens = <<>>
@@ -43,7 +45,10 @@ EvFin == /\ Ev("fin")
                       s |-> J(G!GFin(g, FALSE, FALSE)), u |-> J(G!GFin(g, TRUE, TRUE)),
                       sz |-> g.ref.size, warn |-> Warn(g)]
             IN Expect(Same(x.t, E.t) /\ Same(x.n, E.n) /\ Same(x.s, E.s) /\ Same(x.u, E.u)
-                      /\ x.sz = E.sz /\ x.warn = E.warn, <<l, "fin", x>>)
+                      /\ x.sz = E.sz /\ x.warn = E.warn
+                      (* the string form of finalize() (C01 observe_at, C05) *)
+                      /\ E.txt = (IF x.t.e = "none" THEN T!Format([k |-> x.t.k, a |-> x.t.a, b |-> x.t.b]) ELSE <<>>),
+                      <<l, "fin", x>>)
          /\ UNCHANGED gens /\ Done
 (* hash_buf / hash_stream over the bytes fed to g: both create their own generator;
    hash_buf declares the size (equal to what it then feeds), so both must return the
